@@ -2,8 +2,11 @@
     claims it: optional day of week, day of 1-2 digits, month name, year of 2, 3 or 4+ digits,
     hour ":" minute [":" second], a zone, trailing comments; a run of folding white space wherever
     the standard form "Www, D Mon YYYY HH:MM:SS +hhmm" has a space (optional before the first token
-    and after the comma, as in section 3.3); names in any mixture of cases (ABNF literals are
-    case-insensitive); written as
+    and after the comma, as in section 3.3) and, optionally, on either side of the colons of the
+    time of day (the obsolete obs-hour / obs-minute / obs-second of section 4.3, shown in the
+    obsolete-date example of appendix A.5, to which the crate documentation of
+    DateTime::parse_from_rfc2822 refers for the obsolete forms it supports); names in any mixture
+    of cases (ABNF literals are case-insensitive); written as
       * an executable recogniser [recognise : bytes -> option fields] (the generator grammar: the
         strings it accepts are exactly the renderings of field records, see Proofs/C11.v),
       * the semantic validity of the fields ([valid]: existing proleptic Gregorian date, hour < 24,
@@ -185,10 +188,10 @@ Definition rec_year (s : bytes) : option (Z * Z * bytes) :=
   let '(ds, r) := take_digits s in
   let n := Z.of_nat (List.length ds) in
   if 2 <=? n then Some (n, value_of ds 0, r) else None.
-(** [ ":" second ] *)
+(** [ [FWS] ":" [FWS] second ]  (section 4.3: obs-minute / obs-second admit white space around them) *)
 Definition rec_second (s : bytes) : option (option Z * bytes) :=
-  match s with
-  | c :: r => if c =? 58 then obind (take2 r) (fun '(v, r') => Some (Some v, r')) else Some (None, s)
+  match ws0 s with
+  | c :: r => if c =? 58 then obind (take2 (ws0 r)) (fun '(v, r') => Some (Some v, r')) else Some (None, s)
   | [] => Some (None, s)
   end.
 
@@ -203,8 +206,8 @@ Definition recognise (s : bytes) : option fields :=
   obind (rec_year s) (fun '(yl, yv, s) =>
   obind (ws1 s) (fun s =>
   obind (take2 s) (fun '(h, s) =>
-  obind (expect 58 s) (fun s =>
-  obind (take2 s) (fun '(mi, s) =>
+  obind (expect 58 (ws0 s)) (fun s =>
+  obind (take2 (ws0 s)) (fun '(mi, s) =>
   obind (rec_second s) (fun '(sec, s) =>
   obind (ws1 s) (fun s =>
   obind (rec_zone s) (fun '(z, s) =>
